@@ -1698,16 +1698,15 @@ ppl_Grid_Generator_OK(ppl_const_Grid_Generator_t g) try {
 }
 CATCH_ALL
 
-// FIXME: to be restored soon.
-// int
-// ppl_new_Linear_Expression_from_Grid_Generator
-// (ppl_Linear_Expression_t* ple,
-//  ppl_const_Grid_Generator_t g) try {
-//   const Grid_Generator& gg = *to_const(g);
-//   *ple = to_nonconst(new Linear_Expression(gg));
-//   return 0;
-// }
-// CATCH_ALL
+int
+ppl_new_Linear_Expression_from_Grid_Generator
+(ppl_Linear_Expression_t* ple,
+ ppl_const_Grid_Generator_t g) try {
+  const Grid_Generator& gg = *to_const(g);
+  *ple = to_nonconst(new Linear_Expression(gg.expression()));
+  return 0;
+}
+CATCH_ALL
 
 /* Interface for Grid_Generator_System. */
 
